@@ -185,11 +185,20 @@ type MessageVfLowID struct {
 
 func (*MessageVfLowID) GetID() uint32 { return 201 }
 
+// a vendor variant that has the same struct name as a shipped message (common.MessageDebug) but another definition
+type MessageDebug struct {
+	Value float64
+	Ind   uint16
+	Note  string `mavlen:"6"`
+}
+
+func (*MessageDebug) GetID() uint32 { return 50020 }
+
 func userMessages() []message.Message {
 	return []message.Message{
 		&MessageVfOne{}, &MessageVfAllTypes{}, &MessageVfStable{}, &MessageVfExtMix{}, &MessageVfMavname{},
 		&MessageVfBig255{}, &MessageVfBigString{}, &MessageVfSingle{}, &MessageVfEnums{}, &MessageVfBaseAndBigExt{},
-		&MessageVfEsc_1To_4{}, &MessageVf2Gps2Raw{}, &MessageVfWide{}, &MessageVfHighID{}, &MessageVfLowID{},
+		&MessageVfEsc_1To_4{}, &MessageVf2Gps2Raw{}, &MessageVfWide{}, &MessageVfHighID{}, &MessageVfLowID{}, &MessageDebug{},
 	}
 }
 
